@@ -1,1 +1,493 @@
 //! Shared EVM helpers (bytecode assembly, deployment through the EAM, invocation).
+//!
+//! Everything here goes through the REAL actors: contracts are deployed by an account calling
+//! `EAM.CreateExternal` (-> `Init.Exec4` -> `EVM.Constructor` running the init code), invoked
+//! with `EVM.InvokeContract`, and storage is read back with `EVM.GetStorageAt` (callable by the
+//! system actor only). Needs hook H1 (`/verif/hooks/H1-evm-step-budget.patch`, committed in the
+//! repository as "verif hook H1"): `arm_step_budget` / `cap_evm_memory` use its public functions
+//! `fil_actor_evm::interpreter::verif::{arm, remaining, cap_memory, EXIT_STEP_BUDGET}`.
+use crate::refevm::{self, Fail, Outcome, Word};
+use fil_actor_eam as eam;
+use fil_actor_evm as evm;
+use fil_actors_evm_shared::uints::U256;
+use fil_actors_runtime::runtime::Policy;
+use fil_actors_runtime::{EAM_ACTOR_ADDR, SYSTEM_ACTOR_ADDR};
+use fvm_ipld_encoding::ipld_block::IpldBlock;
+use fvm_ipld_encoding::{BytesDe, BytesSer};
+use fvm_shared::ActorID;
+use fvm_shared::address::Address;
+use fvm_shared::econ::TokenAmount;
+use fvm_shared::error::ExitCode;
+use mcvm::{Inv, MsgKind, Snapshot, Store, Vm};
+use num_traits::Zero;
+use std::collections::BTreeMap;
+
+// ------------------------------------------------------------------------------ opcodes
+
+pub mod op {
+    pub const STOP: u8 = 0x00;
+    pub const ADD: u8 = 0x01;
+    pub const MUL: u8 = 0x02;
+    pub const SUB: u8 = 0x03;
+    pub const DIV: u8 = 0x04;
+    pub const SDIV: u8 = 0x05;
+    pub const MOD: u8 = 0x06;
+    pub const SMOD: u8 = 0x07;
+    pub const ADDMOD: u8 = 0x08;
+    pub const MULMOD: u8 = 0x09;
+    pub const EXP: u8 = 0x0a;
+    pub const SIGNEXTEND: u8 = 0x0b;
+    pub const LT: u8 = 0x10;
+    pub const GT: u8 = 0x11;
+    pub const SLT: u8 = 0x12;
+    pub const SGT: u8 = 0x13;
+    pub const EQ: u8 = 0x14;
+    pub const ISZERO: u8 = 0x15;
+    pub const AND: u8 = 0x16;
+    pub const OR: u8 = 0x17;
+    pub const XOR: u8 = 0x18;
+    pub const NOT: u8 = 0x19;
+    pub const BYTE: u8 = 0x1a;
+    pub const SHL: u8 = 0x1b;
+    pub const SHR: u8 = 0x1c;
+    pub const SAR: u8 = 0x1d;
+    pub const CLZ: u8 = 0x1e;
+    pub const KECCAK256: u8 = 0x20;
+    pub const ADDRESS: u8 = 0x30;
+    pub const CALLER: u8 = 0x33;
+    pub const CALLVALUE: u8 = 0x34;
+    pub const CALLDATALOAD: u8 = 0x35;
+    pub const CALLDATASIZE: u8 = 0x36;
+    pub const CALLDATACOPY: u8 = 0x37;
+    pub const CODESIZE: u8 = 0x38;
+    pub const CODECOPY: u8 = 0x39;
+    pub const EXTCODECOPY: u8 = 0x3c;
+    pub const RETURNDATASIZE: u8 = 0x3d;
+    pub const RETURNDATACOPY: u8 = 0x3e;
+    pub const POP: u8 = 0x50;
+    pub const MLOAD: u8 = 0x51;
+    pub const MSTORE: u8 = 0x52;
+    pub const MSTORE8: u8 = 0x53;
+    pub const SLOAD: u8 = 0x54;
+    pub const SSTORE: u8 = 0x55;
+    pub const JUMP: u8 = 0x56;
+    pub const JUMPI: u8 = 0x57;
+    pub const PC: u8 = 0x58;
+    pub const MSIZE: u8 = 0x59;
+    pub const GAS: u8 = 0x5a;
+    pub const JUMPDEST: u8 = 0x5b;
+    pub const TLOAD: u8 = 0x5c;
+    pub const TSTORE: u8 = 0x5d;
+    pub const MCOPY: u8 = 0x5e;
+    pub const PUSH0: u8 = 0x5f;
+    pub const PUSH1: u8 = 0x60;
+    pub const PUSH2: u8 = 0x61;
+    pub const PUSH32: u8 = 0x7f;
+    pub const DUP1: u8 = 0x80;
+    pub const DUP2: u8 = 0x81;
+    pub const DUP3: u8 = 0x82;
+    pub const DUP4: u8 = 0x83;
+    pub const SWAP1: u8 = 0x90;
+    pub const SWAP2: u8 = 0x91;
+    pub const LOG0: u8 = 0xa0;
+    pub const CREATE: u8 = 0xf0;
+    pub const CALL: u8 = 0xf1;
+    pub const RETURN: u8 = 0xf3;
+    pub const DELEGATECALL: u8 = 0xf4;
+    pub const CREATE2: u8 = 0xf5;
+    pub const STATICCALL: u8 = 0xfa;
+    pub const REVERT: u8 = 0xfd;
+    pub const INVALID: u8 = 0xfe;
+    pub const SELFDESTRUCT: u8 = 0xff;
+}
+
+// ------------------------------------------------------------------------------ assembler
+
+/// A tiny two-pass assembler: raw opcodes, minimal-width pushes, and labels (always encoded as
+/// PUSH2 so that sizes do not depend on label values).
+#[derive(Clone, Default)]
+pub struct Asm {
+    code: Vec<u8>,
+    labels: BTreeMap<String, usize>,
+    fixups: Vec<(usize, String)>,
+}
+
+impl Asm {
+    pub fn new() -> Asm {
+        Asm::default()
+    }
+    pub fn len(&self) -> usize {
+        self.code.len()
+    }
+    pub fn is_empty(&self) -> bool {
+        self.code.is_empty()
+    }
+    pub fn op(&mut self, o: u8) -> &mut Self {
+        self.code.push(o);
+        self
+    }
+    pub fn ops(&mut self, os: &[u8]) -> &mut Self {
+        self.code.extend_from_slice(os);
+        self
+    }
+    pub fn raw(&mut self, bytes: &[u8]) -> &mut Self {
+        self.code.extend_from_slice(bytes);
+        self
+    }
+    /// PUSH of a big-endian value with the minimal width (PUSH0 for zero).
+    pub fn push_be(&mut self, be: &[u8]) -> &mut Self {
+        let s: Vec<u8> = be.iter().cloned().skip_while(|b| *b == 0).collect();
+        assert!(s.len() <= 32);
+        self.code.push(0x5f + s.len() as u8);
+        self.code.extend_from_slice(&s);
+        self
+    }
+    pub fn push(&mut self, n: u64) -> &mut Self {
+        self.push_be(&n.to_be_bytes())
+    }
+    pub fn push_word(&mut self, x: &Word) -> &mut Self {
+        self.push_be(&x.to_bytes_be())
+    }
+    /// PUSHn with exactly the given immediate bytes (no minimisation).
+    pub fn push_exact(&mut self, imm: &[u8]) -> &mut Self {
+        assert!(imm.len() <= 32);
+        self.code.push(0x5f + imm.len() as u8);
+        self.code.extend_from_slice(imm);
+        self
+    }
+    pub fn label(&mut self, name: &str) -> &mut Self {
+        let prev = self.labels.insert(name.to_string(), self.code.len());
+        assert!(prev.is_none(), "duplicate label {name}");
+        self
+    }
+    /// `JUMPDEST` carrying a label.
+    pub fn dest(&mut self, name: &str) -> &mut Self {
+        self.label(name);
+        self.op(op::JUMPDEST)
+    }
+    pub fn push_label(&mut self, name: &str) -> &mut Self {
+        self.code.push(op::PUSH2);
+        self.fixups.push((self.code.len(), name.to_string()));
+        self.code.extend_from_slice(&[0, 0]);
+        self
+    }
+    pub fn jump(&mut self, name: &str) -> &mut Self {
+        self.push_label(name);
+        self.op(op::JUMP)
+    }
+    pub fn jumpi(&mut self, name: &str) -> &mut Self {
+        self.push_label(name);
+        self.op(op::JUMPI)
+    }
+    pub fn finish(&self) -> Vec<u8> {
+        let mut c = self.code.clone();
+        for (at, name) in &self.fixups {
+            let v = *self.labels.get(name).unwrap_or_else(|| panic!("undefined label {name}"));
+            assert!(v < 65536);
+            c[*at] = (v >> 8) as u8;
+            c[*at + 1] = v as u8;
+        }
+        c
+    }
+}
+
+/// Init code whose only effect is to return `runtime` as the contract's code:
+/// `PUSH2 len; DUP1; PUSH2 11; PUSH0; CODECOPY; PUSH0; RETURN; <runtime>`.
+pub fn init_code_returning(runtime: &[u8]) -> Vec<u8> {
+    assert!(runtime.len() < 65536);
+    let n = runtime.len();
+    let mut c = vec![
+        op::PUSH2,
+        (n >> 8) as u8,
+        n as u8,
+        op::DUP1,
+        op::PUSH2,
+        0,
+        11,
+        op::PUSH0,
+        op::CODECOPY,
+        op::PUSH0,
+        op::RETURN,
+    ];
+    debug_assert_eq!(c.len(), 11);
+    c.extend_from_slice(runtime);
+    c
+}
+
+// ------------------------------------------------------------------------------ outcomes
+
+/// Exit code of hook H1 ("step budget exhausted" / "memory cap exceeded").
+pub fn step_budget_exit() -> ExitCode {
+    evm::interpreter::verif::EXIT_STEP_BUDGET
+}
+
+/// Arm hook H1 on the current thread: at most `n` further interpreter steps (summed over all
+/// EVM frames that run on this thread) until it is armed again. `u64::MAX` disarms.
+pub fn arm_step_budget(n: u64) {
+    evm::interpreter::verif::arm(n)
+}
+
+pub fn step_budget_left() -> u64 {
+    evm::interpreter::verif::remaining()
+}
+
+/// Hook H1, second resource: refuse to grow any EVM memory beyond `bytes` on this thread
+/// (same exit code as the step budget). `u64::MAX` disarms. Without gas a three-byte program
+/// such as `GAS PUSH0 KECCAK256` would allocate and hash 4 GiB.
+pub fn cap_evm_memory(bytes: u64) {
+    evm::interpreter::verif::cap_memory(bytes)
+}
+
+/// Failure class of a non-zero exit code, by the symbolic constants the EVM actor exports.
+pub fn fail_class(code: ExitCode) -> Fail {
+    if code == evm::EVM_CONTRACT_STACK_UNDERFLOW {
+        Fail::StackUnderflow
+    } else if code == evm::EVM_CONTRACT_STACK_OVERFLOW {
+        Fail::StackOverflow
+    } else if code == evm::EVM_CONTRACT_BAD_JUMPDEST {
+        Fail::BadJump
+    } else if code == evm::EVM_CONTRACT_INVALID_INSTRUCTION || code == evm::EVM_CONTRACT_UNDEFINED_INSTRUCTION {
+        Fail::InvalidInstruction
+    } else if code == evm::EVM_CONTRACT_ILLEGAL_MEMORY_ACCESS {
+        Fail::MemAccess
+    } else if code == ExitCode::USR_READ_ONLY {
+        Fail::StaticViolation
+    } else if code == step_budget_exit() {
+        Fail::StepBudget
+    } else {
+        Fail::Other(code.value())
+    }
+}
+
+fn bytes_of(b: &Option<IpldBlock>) -> Vec<u8> {
+    match b {
+        None => vec![],
+        Some(blk) => match blk.deserialize::<BytesDe>() {
+            Ok(BytesDe(d)) => d,
+            Err(_) => blk.data.clone(),
+        },
+    }
+}
+
+/// Decode the result of an `InvokeContract` (or constructor) invocation.
+pub fn classify(inv: &Inv) -> Outcome {
+    if inv.code.is_success() {
+        Outcome::Return(bytes_of(&inv.ret))
+    } else if inv.code == evm::EVM_CONTRACT_REVERTED {
+        Outcome::Revert(bytes_of(&inv.ret))
+    } else {
+        Outcome::Failure(fail_class(inv.code))
+    }
+}
+
+pub fn u256_of(x: &Word) -> U256 {
+    U256::from_big_endian(&refevm::word_to_be(x))
+}
+pub fn word_of(x: &U256) -> Word {
+    let mut b = [0u8; 32];
+    x.write_as_big_endian(&mut b);
+    refevm::word_from_be(&b)
+}
+
+// ------------------------------------------------------------------------------ the world
+
+#[derive(Clone, Debug)]
+pub struct Deployed {
+    pub id: ActorID,
+    /// 20-byte Ethereum address assigned by the EAM.
+    pub eth: [u8; 20],
+}
+
+impl Deployed {
+    pub fn addr(&self) -> Address {
+        Address::new_id(self.id)
+    }
+    pub fn eth_word(&self) -> Word {
+        refevm::word_from_be(&self.eth)
+    }
+}
+
+/// A VM at genesis + one funded account that deploys and calls contracts.
+pub struct World {
+    pub vm: Vm,
+    pub user: ActorID,
+    pub base: Snapshot,
+    /// Interpreter steps (all frames) spent by the last `create` / `invoke*`, measured by H1.
+    pub last_steps: std::cell::Cell<u64>,
+    /// Cap on the size of one EVM memory armed around every message (`DEFAULT_MEMORY_CAP`).
+    pub memory_cap: std::cell::Cell<u64>,
+}
+
+/// Default H1 budget armed before every deployment / invocation made through `World`.
+pub const DEFAULT_BUDGET: u64 = 200_000;
+/// Default cap on one EVM memory: far above anything the reference model defines (4 MiB).
+pub const DEFAULT_MEMORY_CAP: u64 = 64 << 20;
+
+impl World {
+    pub fn new(store: &Store) -> World {
+        let vm = Vm::genesis(store.clone(), Policy::default());
+        vm.bump_nonce.set(true);
+        let (user, _) = vm.new_account(0xE7, &TokenAmount::from_whole(1_000_000));
+        let base = vm.snapshot();
+        store.keep();
+        World { vm, user, base, last_steps: Default::default(), memory_cap: std::cell::Cell::new(DEFAULT_MEMORY_CAP) }
+    }
+
+    /// Back to the base state; blocks written since are dropped.
+    pub fn reset(&self) {
+        self.vm.restore(&self.base);
+        self.vm.store.discard();
+    }
+
+    /// Deploy with the given *init code* through `EAM.CreateExternal`.
+    pub fn create(&self, initcode: &[u8], value: &TokenAmount, budget: u64) -> (Option<Deployed>, Inv) {
+        arm_step_budget(budget);
+        cap_evm_memory(self.memory_cap.get());
+        let inv = self.vm.apply(
+            MsgKind::External,
+            &Address::new_id(self.user),
+            &EAM_ACTOR_ADDR,
+            value,
+            eam::Method::CreateExternal as u64,
+            IpldBlock::serialize_cbor(&eam::CreateExternalParams(initcode.to_vec())).unwrap(),
+        );
+        self.last_steps.set(budget.saturating_sub(step_budget_left()));
+        arm_step_budget(u64::MAX);
+        cap_evm_memory(u64::MAX);
+        let d = if inv.ok() {
+            let r: eam::CreateExternalReturn =
+                inv.ret.as_ref().expect("CreateExternal returns a value").deserialize().expect("CreateExternalReturn decodes");
+            Some(Deployed { id: r.actor_id, eth: r.eth_address.0 })
+        } else {
+            None
+        };
+        (d, inv)
+    }
+
+    /// Deploy `runtime` as contract code (init code = "return these bytes").
+    pub fn deploy(&self, runtime: &[u8]) -> (Option<Deployed>, Inv) {
+        self.create(&init_code_returning(runtime), &TokenAmount::zero(), DEFAULT_BUDGET)
+    }
+
+    pub fn deploy_funded(&self, runtime: &[u8], value: &TokenAmount) -> (Option<Deployed>, Inv) {
+        self.create(&init_code_returning(runtime), value, DEFAULT_BUDGET)
+    }
+
+    pub fn invoke_with(&self, c: &Deployed, calldata: &[u8], value: &TokenAmount, budget: u64) -> Inv {
+        arm_step_budget(budget);
+        cap_evm_memory(self.memory_cap.get());
+        let inv = self.vm.apply(
+            MsgKind::External,
+            &Address::new_id(self.user),
+            &c.addr(),
+            value,
+            evm::Method::InvokeContract as u64,
+            IpldBlock::serialize_cbor(&BytesSer(calldata)).unwrap(),
+        );
+        self.last_steps.set(budget.saturating_sub(step_budget_left()));
+        arm_step_budget(u64::MAX);
+        cap_evm_memory(u64::MAX);
+        inv
+    }
+
+    pub fn invoke(&self, c: &Deployed, calldata: &[u8]) -> Inv {
+        self.invoke_with(c, calldata, &TokenAmount::zero(), DEFAULT_BUDGET)
+    }
+
+    /// `EVM.GetStorageAt` as the system actor (the only permitted caller).
+    pub fn storage_at(&self, c: &Deployed, key: &Word) -> Result<Word, Inv> {
+        let inv = self.vm.apply(
+            MsgKind::Implicit,
+            &SYSTEM_ACTOR_ADDR,
+            &c.addr(),
+            &TokenAmount::zero(),
+            evm::Method::GetStorageAt as u64,
+            IpldBlock::serialize_cbor(&evm::GetStorageAtParams { storage_key: u256_of(key) }).unwrap(),
+        );
+        if !inv.ok() {
+            return Err(inv);
+        }
+        let r: evm::GetStorageAtReturn = inv.ret.as_ref().expect("GetStorageAt returns").deserialize().expect("decodes");
+        Ok(word_of(&r.storage))
+    }
+
+    /// State CID of an actor (content address of its whole state).
+    pub fn head(&self, id: ActorID) -> Option<cid::Cid> {
+        self.vm.actor(id).map(|a| a.state)
+    }
+}
+
+/// Cross-checks of the test bench itself (machinery errors, not findings).
+pub fn self_test() -> Result<(), String> {
+    refevm::self_test()?;
+    // refevm's own Keccak against the sha3 implementation used by the VM, across block sizes
+    use fil_actors_runtime::runtime::Primitives;
+    use fvm_shared::crypto::hash::SupportedHashes;
+    let prims = fil_actors_runtime::test_utils::FakePrimitives::default();
+    for n in [0usize, 1, 31, 32, 33, 135, 136, 137, 271, 272, 273, 1000] {
+        let data: Vec<u8> = (0..n).map(|i| (i * 7 + 3) as u8).collect();
+        if prims.hash(SupportedHashes::Keccak256, &data) != refevm::keccak256(&data).to_vec() {
+            return Err(format!("refevm keccak256 differs from the VM's at length {n}"));
+        }
+    }
+    // assembler / init wrapper round trip through the real actors
+    let store = Store::new();
+    let w = World::new(&store);
+    let mut a = Asm::new();
+    a.push(0x2a).push(0).op(op::SSTORE).push(7).push(0).op(op::MSTORE).push(32).push(0).op(op::RETURN);
+    let code = a.finish();
+    let (d, inv) = w.deploy(&code);
+    let Some(d) = d else { return Err(format!("self-test deployment failed: {}", inv.tree())) };
+    let r = w.invoke(&d, &[]);
+    let mut want = vec![0u8; 32];
+    want[31] = 7;
+    if classify(&r) != Outcome::Return(want) {
+        return Err(format!("self-test invocation: {}", r.tree()));
+    }
+    match w.storage_at(&d, &refevm::w(0)) {
+        Ok(v) if v == refevm::w(0x2a) => {}
+        other => return Err(format!("self-test GetStorageAt: {:?}", other.map_err(|i| i.tree()))),
+    }
+    // H1 works: an endless loop ends with the budget failure class
+    let (d, _) = w.deploy(&[op::JUMPDEST, op::PUSH0, op::JUMP]);
+    let r = w.invoke_with(&d.unwrap(), &[], &TokenAmount::zero(), 5_000);
+    if classify(&r) != Outcome::Failure(Fail::StepBudget) {
+        return Err(format!("hook H1 did not stop an endless loop: {}", r.tree()));
+    }
+    // ... and a memory bomb: MSTORE8 at 128 MiB
+    let mut a = Asm::new();
+    a.push(1).push(128 << 20).op(op::MSTORE8);
+    let (d, _) = w.deploy(&a.finish());
+    let r = w.invoke(&d.unwrap(), &[]);
+    if classify(&r) != Outcome::Failure(Fail::StepBudget) {
+        return Err(format!("hook H1 did not stop a 128 MiB memory expansion: {}", r.tree()));
+    }
+    Ok(())
+}
+
+/// Run `f(worker_index, &World)` on `threads` workers, each with its own VM over its own store.
+pub fn parallel<T: Send>(threads: usize, f: impl Fn(usize, &World) -> T + Sync) -> Vec<T> {
+    std::thread::scope(|sc| {
+        let hs: Vec<_> = (0..threads)
+            .map(|i| {
+                let f = &f;
+                std::thread::Builder::new()
+                    .stack_size(1 << 30)
+                    .spawn_scoped(sc, move || {
+                        let store = Store::new();
+                        let w = World::new(&store);
+                        f(i, &w)
+                    })
+                    .unwrap()
+            })
+            .collect();
+        hs.into_iter().map(|h| h.join().expect("worker panicked (machinery error)")).collect()
+    })
+}
+
+pub fn threads() -> usize {
+    std::env::var("MC_THREADS")
+        .ok()
+        .and_then(|s| s.parse().ok())
+        .unwrap_or_else(|| std::thread::available_parallelism().map(|n| n.get()).unwrap_or(8))
+}
